@@ -193,6 +193,19 @@ CLAIMED = {
             'Accepted steps whose validity cannot be decided within the bounds (quantified formulas over large signatures, let/bind/sko '
             'contexts) are counted as undecided per rule in the evidence, not judged. Steps larger than 600 (thorough 3000) term nodes are skipped.',
             'DESIGN.md §3 C18'),
+    'C19': ('exploration',
+            'bounded exhaustive enumeration of calculator steps (every recorded step of the example files; every generated expression x rule x parameter) on the real rules, numeric-value oracle on a deterministic grid',
+            'Every step of every calculation of the example files reachable from the five books is re-applied to the recorded previous '
+            'expression in its context; every generated expression (<=1, thorough <=2 operators over x, a, numerals, pi and 12 '
+            'functions) gets FullSimplify, Simplify, ExpandPolynomial, SimplifyPower, deriv and a print/parse round trip; every generated '
+            'definite integral gets Linearity, DefiniteIntegralIdentity, SplitRegion, ElimInfInterval, 8 substitutions, 7 inverse '
+            'substitutions and 81 integration-by-parts pairs, followed by FullSimplify of the result; every generated limit gets '
+            'LHopital, ReduceLimit, FullSimplify. The value before and after must agree at every admissible grid point where both can '
+            'be computed reliably (equations by residual, antiderivatives by increments).',
+            'Trusted: mpmath (quadrature with error estimate, 30 and 50 digits), mc/intnum.py. Steps whose value cannot be computed '
+            'reliably (divergent / slowly convergent integrals and series, values above 1e9, unknown special functions, complex values) '
+            'are counted as undecided per rule in the evidence. A wrong step whose error is below 1e-6 on the whole grid is missed.',
+            'DESIGN.md §3 C19'),
 }
 
 PENDING_REASON = 'check not built yet in this round (planned, see DESIGN.md §3/§7); not claimed until its machinery exists'
